@@ -2,7 +2,7 @@
    Statements only; proofs in proofs/DASProofs.v.  Model: model/DAS.v (das / build_attributes of responses/das.py, DASParser of
    parsers/das.py at character level, add_attributes).  Numbers appear in the model as the tokens the DAS carries; the
    pair  "%.6g" % x  /  ast.literal_eval  is outside the model (compared by the harness to six significant digits). *)
-From PydapV Require Import Base Quote QuoteProofs DDS DDSProofs DAS DASProofs DASPlaceProofs.
+From PydapV Require Import Base Quote QuoteProofs DDS DDSProofs DAS DASProofs DASPlaceProofs DASGlobals.
 Open Scope nat_scope.
 
 (* wf_entries: leaf attribute names are non-empty and in quoted form; type words and container names contain no white space and
@@ -37,6 +37,17 @@ Theorem C08_placement : forall dsname dsa kids,
   add_attributes dsname kids (das_of dsa kids) = Some (sort_attrs dsa, flat_map (expected []) kids).
 Proof. exact add_attributes_das_of. Qed.
 Print Assumptions C08_placement.
+
+(* ... and with NC_GLOBAL / DODS_EXTRA containers among the dataset attributes: their contents are merged (in the order the DAS
+   lists them) and become the first global attributes, the other dataset attributes follow; the variables are unaffected *)
+Theorem C08_placement_with_globals : forall dsname dsa kids,
+  let S := sort_attrs dsa in
+  let A := without_global_dicts S in
+  NoDup (map fst A ++ map vname kids) -> Forall (fun k => dotfree k = true) (map fst A) -> forallb wf_v kids = true ->
+  ~ In dsname (map fst A ++ map vname kids) -> forallb (fun c => negb (is_global_name (vname c))) kids = true ->
+  add_attributes dsname kids (das_of dsa kids) = Some (dupdate (global_dicts S) A, flat_map (expected []) kids).
+Proof. exact add_attributes_with_globals. Qed.
+Print Assumptions C08_placement_with_globals.
 
 (* served, parsed and re-attached: the text round trip composed with the placement *)
 Theorem C08_served_parsed_attached : forall dsname dsa kids,
